@@ -4130,3 +4130,153 @@ func ruleMustCompile(prog *Program, rep *Report, rels ...string) {
 	rep.Rules = append(rep.Rules, "E-mustcompile: regexp.MustCompile is called with constant patterns only ("+strings.Join(rels, ", ")+")")
 	runSynRule(prog, rep, "E-mustcompile", rels, matchMustCompile, fixtureMustCompile, 1, 0)
 }
+
+// ---------------------------------------------------------------- B-popsync
+
+// matchIndexSync: the traversal loops of jp keep a fragment index fi and the fragment f = x[fi] it selects in
+// two variables. Wherever a function re-derives one variable from the other by `F = X[I]`, every assignment of
+// I inside a loop (`fi++`, `fi = ii & mask` after a pop) is directly followed by that re-derivation: otherwise
+// the loop goes on with the fragment of the level it has just left.
+func matchIndexSync(files []*ast.File, info *types.Info) (sites []synSite, examined int) {
+	for _, f := range files {
+		for _, d := range f.Decls {
+			fd, ok := d.(*ast.FuncDecl)
+			if !ok || fd.Body == nil {
+				continue
+			}
+			// pairs (I -> F) from statements F = X[I]
+			derived := map[types.Object]types.Object{}
+			isDerive := func(s ast.Stmt) (types.Object, types.Object) {
+				as, ok := s.(*ast.AssignStmt)
+				if !ok || as.Tok != token.ASSIGN || len(as.Lhs) != 1 || len(as.Rhs) != 1 {
+					return nil, nil
+				}
+				fid, ok := as.Lhs[0].(*ast.Ident)
+				if !ok {
+					return nil, nil
+				}
+				ix, ok := ast.Unparen(as.Rhs[0]).(*ast.IndexExpr)
+				if !ok {
+					return nil, nil
+				}
+				iid, ok := ast.Unparen(ix.Index).(*ast.Ident)
+				if !ok {
+					return nil, nil
+				}
+				// X is a path: a slice of the fragment interface (an index into data is normalised and used in other ways)
+				if sl, ok := info.TypeOf(ix.X).Underlying().(*types.Slice); !ok {
+					return nil, nil
+				} else if nt, ok := sl.Elem().(*types.Named); !ok || nt.Obj().Name() != "Frag" {
+					return nil, nil
+				}
+				iv, _ := info.Uses[iid].(*types.Var)
+				fv, _ := info.Uses[fid].(*types.Var)
+				if iv == nil || fv == nil {
+					return nil, nil
+				}
+				if b, ok := iv.Type().Underlying().(*types.Basic); !ok || b.Info()&types.IsInteger == 0 {
+					return nil, nil
+				}
+				return iv, fv
+			}
+			ast.Inspect(fd.Body, func(n ast.Node) bool {
+				if s, ok := n.(ast.Stmt); ok {
+					if i, fv := isDerive(s); i != nil {
+						derived[i] = fv
+					}
+				}
+				return true
+			})
+			if len(derived) == 0 {
+				continue
+			}
+			var visit func(list []ast.Stmt, inLoop bool)
+			check := func(list []ast.Stmt, k int, iv types.Object, pos token.Pos) {
+				examined++
+				if k+1 < len(list) {
+					if i2, f2 := isDerive(list[k+1]); i2 == iv && f2 == derived[iv] {
+						return
+					}
+				}
+				name := enclosingFuncName(f, fd.Pos())
+				sites = append(sites, synSite{pos: pos, file: f, key: fmt.Sprintf("%s:%s-moved-without-%s", name, iv.Name(), derived[iv].Name()),
+					msg: fmt.Sprintf("%s assigns %s here and does not re-derive %s from it in the next statement (elsewhere %s = x[%s] follows every change of %s): the loop goes on with a stale %s", name, iv.Name(), derived[iv].Name(), derived[iv].Name(), iv.Name(), iv.Name(), derived[iv].Name())})
+			}
+			visit = func(list []ast.Stmt, inLoop bool) {
+				for k, s := range list {
+					switch x := s.(type) {
+					case *ast.AssignStmt:
+						if inLoop && x.Tok == token.ASSIGN && len(x.Lhs) == 1 {
+							if id, ok := x.Lhs[0].(*ast.Ident); ok {
+								if iv := info.Uses[id]; iv != nil && derived[iv] != nil {
+									check(list, k, iv, x.Pos())
+								}
+							}
+						}
+					case *ast.IncDecStmt:
+						if id, ok := x.X.(*ast.Ident); ok && inLoop {
+							if iv := info.Uses[id]; iv != nil && derived[iv] != nil {
+								check(list, k, iv, x.Pos())
+							}
+						}
+					case *ast.BlockStmt:
+						visit(x.List, inLoop)
+					case *ast.IfStmt:
+						visit(x.Body.List, inLoop)
+						switch e := x.Else.(type) {
+						case *ast.BlockStmt:
+							visit(e.List, inLoop)
+						case *ast.IfStmt:
+							visit([]ast.Stmt{e}, inLoop)
+						}
+					case *ast.ForStmt:
+						visit(x.Body.List, true)
+					case *ast.RangeStmt:
+						visit(x.Body.List, true)
+					case *ast.SwitchStmt:
+						for _, c := range x.Body.List {
+							visit(c.(*ast.CaseClause).Body, inLoop)
+						}
+					case *ast.TypeSwitchStmt:
+						for _, c := range x.Body.List {
+							visit(c.(*ast.CaseClause).Body, inLoop)
+						}
+					case *ast.LabeledStmt:
+						visit([]ast.Stmt{x.Stmt}, inLoop)
+					}
+				}
+			}
+			visit(fd.Body.List, false)
+		}
+	}
+	return
+}
+
+const fixtureIndexSync = `package fixture
+
+type Frag interface{ String() string }
+
+func walk(x []Frag, stack []int) (out []Frag) {
+	fi := 0
+	f := x[fi]
+	for 0 < len(stack) {
+		ii := stack[len(stack)-1]
+		stack = stack[:len(stack)-1]
+		if ii < 0 {
+			fi = -ii & 0xff
+			continue
+		}
+		if ii == 0 {
+			fi++
+			f = x[fi]
+		}
+		out = append(out, f)
+	}
+	return
+}
+`
+
+func ruleIndexSync(prog *Program, rep *Report, floor int, rels ...string) {
+	rep.Rules = append(rep.Rules, "B-popsync: in a function that derives the current fragment from a fragment index by F = X[I] (X a path), every assignment of I inside a loop is directly followed by that derivation ("+strings.Join(rels, ", ")+")")
+	runSynRule(prog, rep, "B-popsync", rels, matchIndexSync, fixtureIndexSync, 1, floor)
+}
